@@ -111,8 +111,15 @@ func handleDemonAgent(Teamserver agent.TeamServer, Header agent.Header, External
 			}
 		}
 
+		/* take the queued jobs (if asked for) in one step, so that a concurrent
+		 * queue change can't slip in between a length check and the dequeue */
+		var job []agent.Job
+		if asked_for_jobs {
+			job = Agent.GetQueuedJobs()
+		}
+
 		/* if there is no job then just reply with a COMMAND_NOJOB */
-		if asked_for_jobs == false || len(Agent.JobQueue) == 0 {
+		if len(job) == 0 {
 			var NoJob = []agent.Job{{
 				Command: agent.COMMAND_NOJOB,
 				Data:    []interface{}{},
@@ -128,10 +135,7 @@ func handleDemonAgent(Teamserver agent.TeamServer, Header agent.Header, External
 
 		} else {
 			/* if there is a job then send the Task Queue */
-			var (
-				job     = Agent.GetQueuedJobs()
-				payload = agent.BuildPayloadMessage(job, Agent.Encryption.AESKey, Agent.Encryption.AESIv)
-			)
+			var payload = agent.BuildPayloadMessage(job, Agent.Encryption.AESKey, Agent.Encryption.AESIv)
 
 			// write the response to the buffer
 			_, err = Response.Write(payload)
